@@ -15,14 +15,14 @@ PLAN = {
     "quick": {"configs": ["ext1", "ext0"], "nshards": 12, "nshards_ext0": 4, "timeout": 900},
     "thorough": {"configs": ["ext1", "ext0"], "nshards": 16, "timeout": 3400, "suite": ["ext1"]},
 }
-DECIDING = ["add", "subtract", "add_timedelta", "subtract_timedelta", "diff", "closest", "farthest", "inverse", "operators"]
+DECIDING = ["add", "subtract", "add_timedelta", "subtract_timedelta", "diff", "closest", "farthest", "inverse", "operators", "concurrent"]
 FLOORS = {"quick": {"add": 100000, "subtract": 50000, "add_timedelta": 20000, "subtract_timedelta": 20000, "diff": 100000,
-                    "closest": 20000, "farthest": 20000, "inverse": 50000, "operators": 50000},
+                    "closest": 20000, "farthest": 20000, "inverse": 50000, "operators": 50000, "concurrent": 20000},
           "thorough": {"add": 10**6, "subtract": 500000, "add_timedelta": 200000, "subtract_timedelta": 200000, "diff": 10**6,
                        "closest": 200000, "farthest": 200000, "inverse": 500000, "operators": 500000}}
 REQUIRED_HOOKS = ["Time.add", "Time.subtract", "Time.add_timedelta", "Time.subtract_timedelta", "Time.diff", "Time.closest",
                   "Time.farthest"]
-TECHNIQUE = "runtime contracts on Time.add/subtract/timedelta paths/diff/closest/farthest against an integer-microsecond modulo-24h oracle; Duration/Interval operands"
+TECHNIQUE = "runtime contracts on Time.add/subtract/timedelta paths/diff/closest/farthest against an integer-microsecond modulo-24h oracle; Duration/Interval operands; shared objects used by six threads at once (1 us switch interval), every outcome compared with the single-threaded, contract-judged one"
 LEVEL_TEXT = ("every observed Time arithmetic call is judged against integer microseconds modulo 86 400 000 000; boundary times, "
               "multi-day mixed-sign amounts and all pairs in a window for diff with non-zero microseconds; held on what was observed")
 RULE = ("times: 00:00:00.000000, 23:59:59.999999, +-1us around each hour, random; amounts: mixed-sign (h, m, s, us) spanning several "
@@ -147,6 +147,8 @@ def cases(M):
     r = gen.rng(M)
     n = (1200000 if M.tier == "thorough" else 120000) // M.nshards
     edge = _times(r)
+    if M.shard % 2 == 0:
+        yield {"k": "threads", "seed": r.randrange(1 << 30), "n": 6000 if M.tier == "thorough" else 2000}
     for j in range(n):
         t = r.choice(edge) if j % 3 == 0 else r.randrange(DAY)
         sg = lambda: r.choice((1, -1))  # noqa: E731
@@ -164,7 +166,37 @@ def _mk(M, us):
     return M.Time(s // 3600, s // 60 % 60, s % 60, u)
 
 
+def _threads(M, c):
+    """Times (naive and aware, shared objects) shifted and diffed by six threads at once"""
+    import random
+
+    from pvmon import conc
+
+    r = random.Random(c["seed"])
+    T = M.Time
+    items = []
+    pool = [7 * 60 * US, 46 * 60 * US, 1, DAY - 1, 3600 * US + 250000]      # a few amounts used over and over (a memo per amount gets hits)
+    for i in range(c["n"]):
+        t1, t2 = r.randrange(DAY), r.randrange(DAY)
+        tz = None if i % 3 else dt.timezone(dt.timedelta(minutes=r.randrange(-12, 13) * 60 + r.choice((0, 30))))
+        a = T(t1 // US // 3600, t1 // US // 60 % 60, t1 // US % 60, t1 % US, tzinfo=tz)
+        b = T(t2 // US // 3600, t2 // US // 60 % 60, t2 // US % 60, t2 % US, tzinfo=tz)
+        items.append((a, b, pool[r.randrange(len(pool))] if i % 4 else r.randrange(DAY)))
+
+    def one(it):
+        a, b, amt = it
+        d = dt.timedelta(microseconds=amt)
+        return (tus(a.add(microseconds=amt)), tus(a.subtract(microseconds=amt)), tus(a + d), tus(a - d), td_us(a.diff(b, False)), td_us(a.diff(b)), td_us(b - a),
+                tus(a.closest(b, a.add(microseconds=amt))), tus(a.farthest(b, a.add(microseconds=amt))))
+
+    conc.differential(M, items, one, "C20/concurrent", show=lambda it: f"{it[0]} {it[1]} +{it[2]}us")
+    M.cls("threads")
+    M.sample(c)
+
+
 def run(M, c):
+    if c.get("k") == "threads":
+        return _threads(M, c)
     T = M.Time
     t = _mk(M, c["t"])
     h, m, s, us = c["amt"]
